@@ -118,7 +118,12 @@ def judge(ctx, fmt, raw, info, surv, err):
     if err is not None:
         # the only documented way out is an empty result of the common step (POD amin of an empty array)
         in_range = [x for x in nums if 0 <= x < maxl]
-        if in_range:
+        # when every record is implausible (all deviate by more than the threshold from the median offset) nothing is
+        # left and numpy's amin raises: the property is silent there. It does speak when records must be kept.
+        must_keep = info["kind"] == "clean" or info.get("exact_clause")
+        if not must_keep:
+            ctx.branches["raises-on-all-implausible(no verdict)"] += 1
+        if in_range and must_keep:
             ctx.violation("%s: sanitising raised %s on %s..." % (fmt, err, nums[:8]), payload, cls="raises:%s" % fam)
         return
     # (a) only removal, order kept (POD: up to one rotation)
